@@ -89,7 +89,7 @@ def run(ck):
             continue
         ms = outs.get(c["id"])
         deterministic = ms is None or (len(ms) == 1 and ms[0]["k"] != "excluded")
-        drop = ("recovered", "g", "msg") if (a.get("k") == "runtime_error" and c06.order_dependent(p)) else ("recovered",)
+        drop = ("recovered", "g", "msg", "positions") if (a.get("k") == "runtime_error" and c06.order_dependent(p)) else ("recovered",)
         key = lambda x: json.dumps({k: v for k, v in x.items() if k not in drop}, sort_keys=True)
         if deterministic:
             if key(a) != key(b):
@@ -113,7 +113,10 @@ def run(ck):
                     p["src"], json.dumps(b)[:500], json.dumps(cc)[:500]), {"program": p, "B": b, "C": cc})
                 continue
         else:
-            if not (a["k"] == b["k"] == cc.get("k") and a.get("kind") == b.get("kind") == cc.get("kind")):
+            # several outcomes are allowed (iteration order of a map reaches the result): every pipeline must end in one of them;
+            # two real runs need not end in the same one
+            allowed = ms is not None and all(semcmp.compare(ms, x)[0] != "disagree" for x in (a, b, cc) if x.get("k") in ("ok", "runtime_error"))
+            if not allowed and not (a["k"] == b["k"] == cc.get("k") and a.get("kind") == b.get("kind") == cc.get("kind")):
                 ck.violation("pipeline-behaviour", "pipelines end differently:\n" + p["src"], {"program": p, "A": a, "B": b, "C": cc})
                 continue
         if ms is not None and b["k"] in ("ok", "runtime_error"):
